@@ -30,6 +30,21 @@ let parse_rec (r : string) =
       let p = Array.of_list p in
       RCfi (z_of_string p.(0), z_of_string p.(1), bytes_of_string rules)
   | _ -> failwith "rec"
+(* the text of the symbol file, formatted exactly as harness/src/bin/c07.rs does *)
+let hex (x : z) : string = ZA.format "%x" (z_to_zt x)
+let rec_text (r : string) : string =
+  let (k, rest) = fields 1 r in
+  match k with
+  | ["W"] ->
+      let (p, prog) = fields 10 rest in
+      let p = Array.of_list p in
+      let n i = hex (z_of_string p.(i)) in
+      Printf.sprintf "STACK WIN %s %s %s %s %s %s %s %s %s %s %s" p.(0) (n 1) (n 2) (n 3) (n 4) (n 5) (n 6) (n 7) (n 8) p.(9) prog
+  | ["C"] ->
+      let (p, rules) = fields 2 rest in
+      let p = Array.of_list p in
+      Printf.sprintf "STACK CFI INIT %s %s %s" (hex (z_of_string p.(0))) (hex (z_of_string p.(1))) rules
+  | _ -> failwith "rec"
 let names_of (texts : string list) : z list list =
   List.concat_map (fun t ->
     List.filter_map (fun tok ->
@@ -53,28 +68,38 @@ let () =
       if String.length line > 0 && line.[0] <> '#' then begin
         let f = Array.of_list (String.split_on_char '|' line) in
         let rest i = Array.to_list (Array.sub f i (Array.length f - i)) in
-        let o, kind =
+        let o, o2, kind =
           if f.(0) = "A" then begin
             let recs = List.map parse_rec (rest 7) in
             let cfi_texts = List.filter_map (function RCfi (_, _, t) -> Some (string_of_bytes t) | _ -> None) recs in
             let names = List.map bytes_of_string (six @ List.map (fun n -> "$" ^ n) six) @ names_of cfi_texts in
+            let lines = List.map bytes_of_string ("MODULE windows x86 ABCD1234 m" :: List.map rec_text (rest 7)) in
             run_mock7 (z_of_string f.(1)) (z_of_string f.(2)) (f.(3) = "1") (parse_regs f.(4))
-              (z_of_string f.(5)) (unhex f.(6)) recs names, 'A'
+              (z_of_string f.(5)) (unhex f.(6)) recs names,
+            run_mock7_text (z_of_string f.(1)) (z_of_string f.(2)) (f.(3) = "1") (parse_regs f.(4))
+              (z_of_string f.(5)) (unhex f.(6)) lines names, 'A'
           end else begin
             let valid = if f.(2) = "all" then None
               else Some (if f.(2) = "-" then [] else List.map bytes_of_string (String.split_on_char ',' f.(2))) in
-            run_real7 (parse_regs f.(1)) valid (z_of_string f.(3)) (unhex f.(4)) (List.map parse_rec (rest 5)), 'B'
+            let lines = List.map bytes_of_string ("MODULE Linux x86 ABCD1234 m1" :: List.map rec_text (rest 5)) in
+            run_real7 (parse_regs f.(1)) valid (z_of_string f.(3)) (unhex f.(4)) (List.map parse_rec (rest 5)),
+            run_real7_text (parse_regs f.(1)) valid (z_of_string f.(3)) (unhex f.(4)) lines, 'B'
           end in
-        let st = int_of_z (o_status o) in
-        if st = 2 then print_endline "P;;model"
-        else if st = 0 then print_endline "N"
-        else if kind = 'A' then
-          print_endline (Printf.sprintf "S|cfa=%s|ra=%s|regs=%s|cleared=%s" (opt_str (o_cfa o)) (opt_str (o_ra o))
-            (fmt_regs (o_regs o)) (String.concat "," (List.sort compare (List.map string_of_bytes (o_cleared o)))))
-        else begin
-          let names = List.sort compare (List.map (fun (n, _) -> string_of_bytes n) (o_regs o)) in
-          print_endline (Printf.sprintf "S|valid=%s|regs=%s" (String.concat "," names) (fmt_regs (o_regs o)))
-        end
+        let render o =
+          let st = int_of_z (o_status o) in
+          if st = 2 then "P;;model"
+          else if st = 4 then "E"
+          else if st = 0 then "N"
+          else if kind = 'A' then
+            Printf.sprintf "S|cfa=%s|ra=%s|regs=%s|cleared=%s" (opt_str (o_cfa o)) (opt_str (o_ra o))
+              (fmt_regs (o_regs o)) (String.concat "," (List.sort compare (List.map string_of_bytes (o_cleared o))))
+          else begin
+            let names = List.sort compare (List.map (fun (n, _) -> string_of_bytes n) (o_regs o)) in
+            Printf.sprintf "S|valid=%s|regs=%s" (String.concat "," names) (fmt_regs (o_regs o))
+          end in
+        let a1 = render o and a2 = render o2 in
+        (* the record-level model (the one the theorems are about) and the text-level model must agree *)
+        if a1 = a2 then print_endline a1 else print_endline ("D;;record-model=" ^ a1 ^ " text-model=" ^ a2)
       end
     done
   with End_of_file -> ()
